@@ -488,6 +488,9 @@ impl QueryRouter {
 
         let mut primary_set_based_on_activity = false;
         let mut visited_write_statement = false;
+        // A statement whose shard cannot be inferred must not stop the role inference:
+        // the callers forward the message whatever we return.
+        let mut shard_error: Option<Error> = None;
         let mut prev_inferred_shard = None;
 
         if self.pool_settings.db_activity_based_routing {
@@ -537,7 +540,11 @@ impl QueryRouter {
                             // we can let them through as-is.
                             // This is basically building a database now :)
                             let inferred_shard = self.infer_shard(query);
-                            self.handle_inferred_shard(inferred_shard, &mut prev_inferred_shard)?;
+                            if let Err(err) =
+                                self.handle_inferred_shard(inferred_shard, &mut prev_inferred_shard)
+                            {
+                                shard_error.get_or_insert(err);
+                            }
                         }
 
                         None => (),
@@ -574,8 +581,12 @@ impl QueryRouter {
                             // same message, we can either split them and execute them individually
                             // or discard shard selection. If they point to the same shard though,
                             // we can let them through as-is.
-                            let inferred_shard = self.infer_shard_on_write(q)?;
-                            self.handle_inferred_shard(inferred_shard, &mut prev_inferred_shard)?;
+                            let result = self.infer_shard_on_write(q).and_then(|inferred_shard| {
+                                self.handle_inferred_shard(inferred_shard, &mut prev_inferred_shard)
+                            });
+                            if let Err(err) = result {
+                                shard_error.get_or_insert(err);
+                            }
                         }
 
                         None => (),
@@ -586,7 +597,10 @@ impl QueryRouter {
             };
         }
 
-        Ok(())
+        match shard_error {
+            Some(err) => Err(err),
+            None => Ok(()),
+        }
     }
 
     fn handle_inferred_shard(
